@@ -134,6 +134,11 @@ def fileList (f : File) : List (Nat × Nat × Nat × Nat × Nat) :=
     let sz := r.2.2 - r.2.1
     (wId r.1, wStatus r.1, wDepth r.1, sz / (elemBytes (wDepth r.1) <<< 1), sz)
 
+/-- `mocset extract id`: the first row whose identifier matches and whose status is valid or deprecated. -/
+def fileExtract (f : File) (id : Nat) : Option MsEntry :=
+  (f.rows.find? fun r => wId r.1 == id && (wStatus r.1 == 3 || wStatus r.1 == 2)).map
+    (rowEntry (hdrBytes f.n128) f.data)
+
 /-! ### Writers -/
 
 /-- `MocSetFileWriter::append_moc`: the scan for the first void entry, with the duplicate test,
